@@ -129,6 +129,11 @@ def tables(tier, z):
                 out.append({"vi": vi, "io": io, z: rows})
                 if ci % 3 == 0:  # the same table with its vi rows listed in descending order
                     out.append({"vi": vi[::-1], "io": io, z: rows[::-1]})
+    if z == "ig":  # micro-amp scale io axes (absolute epsilons in the clamping code would show here)
+        for io in ([1e-6, 2e-6, 4e-6], [1e-7, 3e-7, 5e-7]):
+            # 1-D only: a 2-D table with a micro-amp io axis next to a volt-scale vi axis is not "well-conditioned" in the sense of the
+            # property (axis steps >= 1e-4 of the largest coordinate) -- the Delaunay triangulation misbehaves there on the unchanged tree too
+            out.append({"vi": [3.3], "io": io, z: [[vals[2], vals[0], vals[1]]]})
     return out
 
 
